@@ -56,6 +56,12 @@ def body_classes(rng: random.Random, thorough: bool):
     out.append(("errors-null-only", json.dumps({"errors": None}).encode()))
     entries = error_entries()
     combos = [[e] for e in entries] + [entries[:2], entries[2:5], entries]
+    # the same failure reported several times: entries that agree in message (and locations) and differ only in path / extensions, and exact repeats
+    null_item = {"message": "Cannot return null for non-nullable field Item.name.", "locations": [{"line": 2, "column": 3}]}
+    combos += [[dict(null_item, path=["items", k, "name"]) for k in (0, 2, 3)],
+               [{"message": "upstream failed", "extensions": {"service": "a"}}, {"message": "upstream failed", "extensions": {"service": "b"}}],
+               [dict(entries[0]), dict(entries[0])],
+               [dict(entries[4]), dict(entries[4]), dict(entries[4], path=["y"])]]
     if thorough:
         for k in (2, 3):
             for c in itertools.islice(itertools.permutations(entries, k), 0, 60):
